@@ -145,6 +145,13 @@ def run(ctx):
                    "direct recursion among functions on the parse path: %s" % sorted(comp)[:4])
     ra.inst("parse-path call graph", None, "ok" if not sccs else "cycles", {"functions": len(reach), "direct_edges": sum(len(v) for v in direct.values())})
     ra.require(1, "graph")
+
+    # progress: a terminal that succeeds on a non-empty match moves the real cursor, else `(.. ~ ANY)*`-style loops never end
+    from .. import prims
+    rpg = ctx.rule("R11-PROGRESS", "necessary for termination of repetitions over consuming bodies: every consuming Input primitive that reports "
+                   "success has moved the input's own cursor (R01-PRIM instances)")
+    prims.adv_rule(rpg, fs["pest_typed"])
+    rpg.require(9, "primitives")
     ctx.assume("that the generator refuses exactly pest's set of ill-formed grammars rests on pest_meta::parser::consume_rules + validate_ast (pest's own code, trusted)")
     ctx.assume("termination of parsing on inputs is not decided; loops on the parse path are the repetition loops described under C19/C05")
     ctx.explanation = ("Data-flow in derive_typed_parser: the rule list given to the emitter is syntactically the validated value; who-may-call for "
